@@ -4,11 +4,14 @@ set -u
 patch="$1"; shift
 cd /repo || exit 2
 if [ -n "$(git status --porcelain --untracked-files=no)" ]; then echo "/repo not clean"; exit 2; fi
-if ! git apply --3way "$patch" 2>/tmp/apply.err && ! git apply "$patch" 2>>/tmp/apply.err; then echo "PATCH DOES NOT APPLY: $patch"; cat /tmp/apply.err; git checkout -- . ; exit 2; fi
-git reset -q 2>/dev/null
+if ! git apply "$patch" 2>/tmp/apply.err; then
+  git reset -q --hard HEAD
+  if ! git apply --3way "$patch" 2>>/tmp/apply.err || [ -n "$(git diff --name-only --diff-filter=U)" ]; then echo "PATCH DOES NOT APPLY: $patch"; head -5 /tmp/apply.err; git reset -q --hard HEAD; exit 2; fi
+  git reset -q 2>/dev/null
+fi
 for id in "$@"; do
   out=$(cd /verif && ./check "$id" --tier quick 2>&1); rc=$?
   echo "== $id rc=$rc :: $(echo "$out" | grep -E 'VIOLATION|oracle:|GENERATOR|INCONCL|BUILD' | head -3 | tr '\n' ' ')"
 done
-git -C /repo checkout -- .
+git -C /repo reset -q --hard HEAD
 git -C /repo status --porcelain --untracked-files=no | head -3
